@@ -3,12 +3,15 @@ Line-protocol driver for the wire-format models (C02).  One op per line, one can
   <hdr>.enc <field ints…>   -> hex of the encoded octets | exception name
   <hdr>.dec <hex|->         -> decoded field ints        | exception name
   spec.pack <layout> <ints…> -> hex of pack              spec.unpack <layout> <hex> -> ints
+  rx <0/1> <events…>        -> PDUs of a multi-thread reception schedule (Rx.lean)
+  btp req …                 -> length + data of the GN-DATA.request built from a BTP-Data.request
 Unknown op / unparsable argument -> `bad-op`.
 -/
 import FlexModel.Proto
 import FlexModel.Wire.Headers
 import FlexModel.Wire.Spec
 import FlexModel.Wire.Packet
+import FlexModel.Wire.Rx
 
 namespace FlexModel.Wire
 open FlexModel.Proto
@@ -157,6 +160,60 @@ def mkReq (data : Bytes) : List Int → Option Request
     else none
   | _ => none
 
+/-- one event token of an `rx` line: `E<tid>:<hex>` (enter, secured message), `L<tid>` (leave),
+`F<tid>:<version,nh,reserved,mult,base,rhl>:<hex>` (`_forward_pdu` with that basic header; hex = common ‖ extended ‖ payload) -/
+def rxEv? (tok : String) : Option RxEv :=
+  match tok.splitOn ":" with
+  | [k] =>
+    match k.toList with
+    | 'L' :: t => do let t ← nat? (String.ofList t); some (.leave t)
+    | _ => none
+  | [k, hex] =>
+    match k.toList with
+    | 'E' :: t => do
+      let t ← nat? (String.ofList t)
+      let m ← parseHex hex
+      some (.enter t m)
+    | _ => none
+  | [k, bh, hex] =>
+    match k.toList with
+    | 'F' :: t => do
+      let t ← nat? (String.ofList t)
+      let a ← ints? (bh.splitOn ",")
+      let tail ← parseHex hex
+      match a with
+      | [v, nh, r, mu, ba, rhl] =>
+        if allNonneg a then some (.forward t ⟨nat! v, nat! nh, nat! r, ⟨nat! mu, nat! ba⟩, nat! rhl⟩ tail) else none
+      | _ => none
+    | _ => none
+  | _ => none
+
+/-- `rx <threadLocal 0/1> <event>…` -> the PDUs handed to the link layer in order, `<tid>:<hex|error>`; `-` if none -/
+def rxOp (t : List String) : Option String :=
+  match t with
+  | tl :: evs => do
+    let tl ← nat? tl
+    let es ← evs.mapM rxEv?
+    let outs := rxRun (tl != 0) RxStore.empty es
+    some (if outs.isEmpty then "-" else " ".intercalate (outs.map fun o => toString o.1 ++ ":" ++ outBytes o.2))
+  | _ => none
+
+/-- `btp req <btp_type> <source_port> <destination_port> <destination_port_info> <declared length> <payload hex>` ->
+`<length> <data hex>` of the GN-DATA.request built by `btp_data_request` | exception name -/
+def btpOp (t : List String) : Option String :=
+  match t with
+  | ["req", ty, sp, dp, dpi, decl, hex] => do
+    let a ← [ty, sp, dp, dpi, decl].mapM nat?
+    let data ← parseHex hex
+    match a with
+    | [ty, sp, dp, dpi, decl] =>
+      let q : BtpRequest := ⟨ty, sp, dp, dpi, decl, data, 5, 0, ⟨false, false, 0⟩, ⟨0, 0, 0, 0, 0⟩, 1, none⟩
+      some (match btpGnRequest true q with
+            | .ok r => toString r.length ++ " " ++ toHex r.data
+            | .error e => e.name)
+    | _ => none
+  | _ => none
+
 /-- `pkt <kind> …` : kinds beacon shb gbc guc lsq lsr (variant 3, mib 5, then the arguments) / fwd / fwdr / btp -/
 def pktOp (t : List String) : Option String :=
   match t with
@@ -234,6 +291,8 @@ def wireStep (_ : Unit) (t : List String) : Unit × String :=
       let t := TrafficClass.decodeInt n
       some (joinNat [b2n t.scf, b2n t.channelOffload, t.tcId])
     | "pkt" :: rest => pktOp rest
+    | "rx" :: rest => rxOp rest
+    | "btp" :: rest => btpOp rest
     | op :: args =>
       match op.splitOn "." with
       | [hdr, "enc"] => do
